@@ -336,7 +336,7 @@ def rule_b3(ctx, pl: Pipeline, rule_id: str = "C06-B3") -> None:
 
 
 def rule_b4(ctx, scope: Set[str], rule_id: str = "C06-B4", class_level: bool = True) -> None:
-    ctx.rule(rule_id, "no pipeline-reachable function mutates module/class level containers (lazy-constant idiom excepted) or a mutable default argument", 50 if rule_id == "C06-B4" else 10)
+    ctx.rule(rule_id, "no pipeline-reachable function mutates module/class level containers (lazy-constant idiom excepted) or a mutable default argument", {"C06-B4": 50, "C11-X7": 10}.get(rule_id, 5))
     prog = ctx.prog
     MUT = {"append", "extend", "update", "add", "insert", "pop", "remove", "clear", "setdefault", "__setitem__"}
     from ..shared import SharedFlow
